@@ -164,6 +164,21 @@ def run(ctx):
             if hit:
                 ctx.violation('private key material in a public view', {'op': 'view %s' % vname, 'kind': 'HDKey' if hd else 'Key', 'network': net,
                                                                         'history': hist, 'encodings_found': hit[:5]})
+        # the other way to the public version of an HD key: the path 'M' (public master notation) on its own, as text and as list
+        if hd:
+            for pform in ('M', ['M']):
+                try:
+                    pubm = k.subkey_for_path(pform)
+                except Exception:
+                    ctx.count('path-M-refused')
+                    continue
+                for vname, blobs in views(pubm).items():
+                    ctx.evals += 1
+                    ctx.count('view:path-M:' + vname)
+                    hit = leaks(enc, blobs)
+                    if hit:
+                        ctx.violation('private key material in the public version of an HD key obtained with the path M',
+                                      {'op': 'view path-M %s' % vname, 'path': repr(pform), 'network': net, 'history': hist, 'encodings_found': hit[:5]})
         # PUBLIC exports asked of the private object (also with an explicit version prefix, bytes or hex): the strings and their
         # Base58 payloads must not contain the secret
         if hd:
